@@ -218,7 +218,7 @@ func runCase(c *hx.Ctx, k kase, tag string) {
 func Run(c *hx.Ctx) {
 	c.Rep.Rule = "random logical documents (1-6 pages x 1-5 lines, Type1/WinAnsi and Type0/ToUnicode fonts, unique token per line) rendered by the harness PDF writer under random combinations of 12 physical-layout dimensions (xref kind, object streams, filter chains with predictors, /Length direct/indirect before/after, content split 1-4 with/without trailing white space, page-tree depth 0-3 with inheritable keys at random levels incl. decoy values overridden lower down, 0-3 incremental revisions with stale content, shuffled numbering/order, EOL, entry terminators, big streams); every case is non-trivial; distinct by (document, layout)"
 	c.Rep.Rule += "; plus the bound cases of bounds.go: page trees of 1, 2, 9999, 10000, 10001 and 30000 levels (a list, and a spine with side leaves and inheritable keys at random levels), indirect /Kids arrays (one per node; shared; cyclic), page content of 64 MiB -1/+0/+1 in one, two or three streams, an empty stream after a full page, one 1 MiB stream named 63/64/5000 times, the deepest valid nesting of object loads and /Length chains of 15/16/17/200 streams, page objects and TJ operands nested 499/500/501/5000 deep; distribution printed as bound:*"
-	c.Rep.Rule += "; plus the font cases of fonts.go: random documents whose 1-3 fonts are drawn from Type1 / TrueType / Type0 x code assignment (the bytes of /Encoding WinAnsi / MacRoman / Standard, written as a name or a dictionary; subset codes in order of first use or in Unicode order over whole alphabets; identity; codes named by the /Differences of a Type1 / TrueType /Encoding dictionary through Adobe Glyph List names, optionally after a run naming the same codes otherwise and beside names outside the glyph list on unused codes) x ToUnicode form (none, all bfchar, all bfrange <lo> <hi> <dst>, array form, mixed; sections of 100; ligature and supplementary-plane destinations), under a layout of their own (xref kind, object streams, filter chains, /Length placement, inherited /Resources, literal/hex strings, split content, shuffled numbers, an update superseding stale ToUnicode / font / content objects); distribution printed as font:*"
+	c.Rep.Rule += "; plus the font cases of fonts.go: random documents whose 1-3 fonts are drawn from Type1 / TrueType / Type0 x code assignment (the bytes of /Encoding WinAnsi / MacRoman / Standard, written as a name or a dictionary; subset codes in order of first use, in Unicode order over whole alphabets, or scattered over the whole code space, for two fifths of the subset fonts with the first glyphs of every line numbered so that the shown string's bytes begin with FE FF / FF FE / EF BB BF - codes of the font, not a byte-order mark; identity; codes named by the /Differences of a Type1 / TrueType /Encoding dictionary through Adobe Glyph List names, optionally after a run naming the same codes otherwise and beside names outside the glyph list on unused codes) x ToUnicode form (none, all bfchar, all bfrange <lo> <hi> <dst>, array form, mixed; sections of 100; ligature and supplementary-plane destinations), under a layout of their own (xref kind, object streams, filter chains, /Length placement, inherited /Resources, literal/hex strings, split content, shuffled numbers, an update superseding stale ToUnicode / font / content objects); distribution printed as font:*"
 	runBounds(c)
 	runFonts(c)
 	ndocs := c.N(60, 400)
